@@ -263,7 +263,7 @@ func guarded(name string, f func() (any, error)) (parseOutcome, error) {
 		}
 		return o, nil
 	case <-time.After(parseWatchdog):
-		return parseOutcome{}, errf("%s did not terminate within %v", name, parseWatchdog)
+		return parseOutcome{}, hangf("%s did not terminate within %v", name, parseWatchdog)
 	}
 }
 
